@@ -4439,3 +4439,99 @@ func ruleMetaVerbatim(id string) func(*Checker) {
 		}
 	}
 }
+
+// ruleStaleElementPointer — nothing is written through the address of a slice
+// element that was taken before the slice grew.
+func ruleStaleElementPointer(id, pkg string) func(*Checker) {
+	return func(c *Checker) {
+		c.rule(id, "Where a function keeps the address of an element of a slice it is still appending to (`objs[k] = &list[len(list)-1]` in a loop that also appends to list), no field is assigned through a pointer taken back out of that table: after an append that reallocates, the pointer refers to the old array, and what is assigned through it is not in the list that is written out (inserting into a map the element already holds is fine — both copies share the map — which is what the manifest writer relies on).", 0)
+		c.absence(id)
+		p := c.P
+		n := 0
+		for _, fn := range p.Funcs {
+			if !p.InModule(fn) || !strings.HasSuffix(pkgPathOf(p, fn), pkg) || fn.Blocks == nil {
+				continue
+			}
+			// tables (maps) that are given the address of an element of a slice held in a cell, and the cell
+			type kept struct {
+				cell string
+				at   *ssa.MapUpdate
+			}
+			cellKey := func(v ssa.Value) string {
+				if fa, ok := v.(*ssa.FieldAddr); ok {
+					return fmt.Sprintf("%p.%d", canon(fa.X), fa.Field)
+				}
+				return fmt.Sprintf("%p", canon(v))
+			}
+			tables := map[ssa.Value][]kept{}
+			eachInstr(fn, func(in ssa.Instruction) {
+				mu, ok := in.(*ssa.MapUpdate)
+				if !ok {
+					return
+				}
+				for w := range p.backSlice(mu.Value, 0) {
+					ia, ok := w.(*ssa.IndexAddr)
+					if !ok {
+						continue
+					}
+					if _, isSlice := ia.X.Type().Underlying().(*types.Slice); !isSlice {
+						continue
+					}
+					ld, ok := ia.X.(*ssa.UnOp)
+					if !ok || ld.Op != token.MUL {
+						continue
+					}
+					tables[canon(mu.Map)] = append(tables[canon(mu.Map)], kept{cellKey(ld.X), mu})
+				}
+			})
+			if len(tables) == 0 {
+				continue
+			}
+			// appends to the cell that can run after the address was kept
+			grows := func(k kept) bool {
+				found := false
+				eachInstr(fn, func(in ssa.Instruction) {
+					st, ok := in.(*ssa.Store)
+					if !ok || cellKey(st.Addr) != k.cell {
+						return
+					}
+					cl, ok := st.Val.(*ssa.Call)
+					if !ok {
+						return
+					}
+					if b, ok := cl.Call.Value.(*ssa.Builtin); !ok || b.Name() != "append" {
+						return
+					}
+					if st.Block() == k.at.Block() || reaches(k.at.Block(), st.Block()) {
+						found = true
+					}
+				})
+				return found
+			}
+			eachInstr(fn, func(in ssa.Instruction) {
+				st, ok := in.(*ssa.Store)
+				if !ok {
+					return
+				}
+				fa, ok := st.Addr.(*ssa.FieldAddr)
+				if !ok {
+					return
+				}
+				for w := range p.backSlice(fa.X, 0) {
+					lk, ok := w.(*ssa.Lookup)
+					if !ok {
+						continue
+					}
+					for _, k := range tables[canon(lk.X)] {
+						n++
+						if grows(k) {
+							c.fail(id, p.FuncName(fn), "field assigned through a kept element address", p.Pos(st.Pos()), "the pointer comes out of a table that was given the address of a slice element at "+p.Pos(k.at.Pos())+", and the slice is appended to after that: the assignment can land in an array the slice no longer uses")
+							return
+						}
+					}
+				}
+			})
+		}
+		c.pass(id, "-", "kept element addresses inspected", "-", fmt.Sprintf("%d field assignment(s) through pointers taken out of such a table", n))
+	}
+}
